@@ -128,6 +128,8 @@ static bool check_point(Ctx& ctx, int zone, bool northp, double x, double y, boo
   Ctx::Case cs(ctx);
   std::string key0 = "zone " + fmti(zone) + (northp ? "n" : "s") + " (" + fx(x) + "," + fx(y) + ")";
   mc::Fields F{{"zone", fmti(zone)}, {"northp", northp ? "1" : "0"}, {"x", fmt(x)}, {"y", fmt(y)}};
+  // class of the northing with respect to the equator fold (used by known-finding entries)
+  if (zone && northp && y < 0 && y + 10000000.0 == 10000000.0) F.push_back({"fold", y / 100000.0 == 0 ? "north-denormal-below-equator" : "north-rounds-onto-equator"});
   auto FF = [&](const std::string& kind, int prec) { mc::Fields g = F; g.push_back({"kind", std::string(kp) + kind}); g.push_back({"prec", fmti(prec)}); return g; };
   mgrsref::Cell c = mgrsref::locate(zone, northp, x, y);
   if (c.throws) {
@@ -153,8 +155,9 @@ static bool check_point(Ctx& ctx, int zone, bool northp, double x, double y, boo
     if (!alt.empty()) return;
     for (int dx = -1; dx <= 1; ++dx) for (int dy = -1; dy <= 1; ++dy) {
       if (!dx && !dy) continue;
-      double x2 = dx ? std::nextafter(x, dx * INFINITY) : x, y2 = dy ? std::nextafter(y, dy * INFINITY) : y;
-      mgrsref::Cell c2 = mgrsref::locate(zone, northp, x2, y2);
+      // neighbours of the coordinate in the numbering of its (folded) hemisphere: that is the number which is multiplied by 10^6
+      double x2 = dx ? std::nextafter(x, dx * INFINITY) : x, y2 = dy ? std::nextafter(c.yn, dy * INFINITY) : c.yn;
+      mgrsref::Cell c2 = mgrsref::locate(zone, c.northp, x2, y2);
       if (!c2.throws) alt.push_back(c2);
     }
   };
@@ -350,6 +353,8 @@ int main(int argc, char** argv) {
   std::vector<int> zones;
   if (T) for (int z = 1; z <= 60; ++z) zones.push_back(z); else zones = {1, 2, 3, 31, 32, 60};
   ctx.bound("zones", T ? "all 60 UTM zones + UPS" : "UTM zones 1, 2, 3, 31, 32, 60 + UPS");
+  ctx.note("a UTM northing continued across the equator is folded with the documented shift of 10^7 m in double arithmetic (one correctly "
+           "rounded addition) and the folded coordinate is what is truncated; the exact real sum is not demanded (narrowed: the statement does not say in which arithmetic the fold is made)");
   ctx.note("latitude of block perimeters and of points (band letter) is taken from UTMUPS::Reverse (decided by C04 / C06); "
            "a band edge closer than 10 nm (2 x the documented 5 nm) is classified 'either'");
 
@@ -589,6 +594,21 @@ int main(int argc, char** argv) {
     int L = 5;
     ctx.bound("strings", "all strings of length <= " + fmti(L) + " over the 16 characters '0169ACIOMNXZa- ' + NUL; Reverse (both centerp) and Decode against the documented grammar, GeographicErr and untouched outputs on rejection");
     enum_strings(ctx, al, L);
+    // digit strings of every length 0..27 after valid and invalid block prefixes (precision limit, odd counts, non-digits)
+    ctx.sub("string-digits");
+    ctx.bound("string-digits", "7 block prefixes x digit runs of every length 0..27 (three digit patterns), also with one non-digit at every position of the 22-digit run");
+    {
+      const char* pre[] = {"31NEA", "1CAQ", "60XZT", "ZAB", "AJA", "31NEI", "00NEA"};
+      for (const char* p : pre) {
+        if (!ctx.take()) continue;
+        for (int len = 0; len <= 27; ++len) for (int pat = 0; pat < 3; ++pat) {
+          std::string d; for (int k = 0; k < len; ++k) d += char('0' + (pat == 0 ? 0 : pat == 1 ? 9 : (k * 7 + 3) % 10));
+          check_string(ctx, std::string(p) + d);
+        }
+        std::string d22 = "1234567890123456789012";
+        for (size_t k = 0; k < d22.size(); ++k) for (char ch : {'A', ' ', '-', '.', '\0'}) { std::string d = d22; d[k] = ch; check_string(ctx, std::string(p) + d); }
+      }
+    }
     ctx.sub("string-edits");
     int nvalid = T ? 200 : 40;
     ctx.bound("string-edits", "every single-character deletion / insertion / substitution over '0123456789ACHIJMNOVXZaz- ' + NUL of " + fmti(nvalid) + " valid UTM strings (prec 0..5 and 11, with and without leading zero) and 16 UPS strings");
